@@ -495,6 +495,8 @@ impl MqttShared {
     ) -> Result<pool::Receiver<Ack>, SendPacketError> {
         let mut queues = self.queues.borrow_mut();
         if queues.inflight_ids.contains(&id) {
+            drop(queues);
+            self.wake_waiter();
             Err(SendPacketError::PacketIdInUse(id))
         } else {
             let (tx, rx) = self.pool.queue.channel();
@@ -511,10 +513,28 @@ impl MqttShared {
             queues.inflight.pop_back();
             queues.inflight_ids.remove(&id);
         }
+        drop(queues);
+        self.wake_waiter();
     }
 
     /// Register ack in response channel
     pub(super) fn wait_publish_response(
+        &self,
+        id: num::NonZeroU16,
+        ack: AckType,
+        pkt: Publish,
+        payload: Option<Bytes>,
+    ) -> Result<pool::Receiver<Ack>, SendPacketError> {
+        let res = self.wait_publish_response_inner(id, ack, pkt, payload);
+        if res.is_err() {
+            // this send does not occupy a slot of the window,
+            // the wake-up it may have received belongs to the next waiter
+            self.wake_waiter();
+        }
+        res
+    }
+
+    fn wait_publish_response_inner(
         &self,
         id: num::NonZeroU16,
         ack: AckType,
